@@ -100,11 +100,11 @@ def apply_value(st, fv, args, kwargs, n=None):
     if f.kind == 'lambda':
         return E.apply_fn(st, fv, args)
     if f.kind == 'closure':
-        key = '%s.%s' % (st.ex.func_key, f.name)
+        key = f.cls or ('%s.%s' % (st.ex.func_key, f.name))
         c = R.CONTRACTS.get(key)
         if c is None:
             raise Undecided('nested function %s needs a contract' % key)
-        return call_contract(st, c, args, kwargs, n, closure_env=f.env)
+        return call_contract(st, c, args, kwargs, n, closure_env=f.env if f.env is not None else st.locals)
     raise Undecided('call of %r' % (f,))
 
 
@@ -184,9 +184,16 @@ def construct(st, cls, args, kwargs, n=None):
 
 
 # ------------------------------------------------------------------ modular call
-def bind_args(st, c, args, kwargs):
+def bind_args(st, c, args, kwargs, closure_env=None, npos=None):
     names = list(c.params.keys())
     env = {}
+    if closure_env is not None:
+        # captured variables of a nested function are extra contract parameters bound from
+        # the defining scope (at call time: Python closures see the current binding)
+        for p in names[npos:]:
+            if p in closure_env:
+                env[p] = closure_env[p]
+        names = names[:npos] + [p for p in names[npos:] if p not in env]
     pos = [p for p in names if p != c.vararg]
     if len(args) > len(pos) and not c.vararg:
         raise Undecided('too many arguments for %s' % c.key)
@@ -308,13 +315,44 @@ def havoc_contents(st, ty, ref):
         raise Undecided('contents() of %r' % (ty,))
 
 
+def check_callee_frame(st, c, targets, line):
+    if st.frames is None or st.spec:
+        return
+    for (kind, k, r) in targets:
+        lab = 'call[%s]@%d/frame' % (c.key, line)
+        if kind == 'field':
+            E._check_write(st, r, k, False, '%s[%s]' % (lab, k))
+        elif kind == 'contents':
+            E._check_write(st, r, None, True, '%s[contents]' % lab)
+        elif kind == 'allfields':
+            seen = set()
+            for cn in R.mro(k):
+                ci = R.CLASSES.get(cn)
+                if ci is None:
+                    continue
+                for fname in ci.fields:
+                    if fname in seen or fname in ci.ghost:
+                        continue
+                    seen.add(fname)
+                    E._check_write(st, r, '%s.%s' % (cn, fname), False, '%s[%s.%s]' % (lab, cn, fname))
+        elif kind == 'anyfield':
+            ok = any(t[0] == 'anyfield' and t[1] == k for t in st.frames[0][0])
+            if not ok:
+                st.prove('%s[any %s]' % (lab, k), z3.BoolVal(False), kind='frame')
+        elif kind == 'fresh':
+            pass
+
+
 def call_contract(st, c, args, kwargs, n=None, closure_env=None):
     if c.model is not None:
         return c.model(st, args, kwargs)
-    env = bind_args(st, c, args, kwargs)
     if closure_env is not None:
-        for k, v in closure_env.items():
-            env.setdefault(k, v)
+        env = bind_args(st, c, args, kwargs, closure_env, len(args))
+        for p in list(env.keys()):
+            if p in c.params and env[p].t != c.params[p] and env[p].t.kind not in ('fn', 'typeobj'):
+                env[p] = st.coerce(env[p], c.params[p])
+    else:
+        env = bind_args(st, c, args, kwargs)
     line = getattr(n, 'lineno', st.lineno)
     if st.spec:
         if not c.pure:
@@ -337,9 +375,11 @@ def call_contract(st, c, args, kwargs, n=None, closure_env=None):
         YIELD_HOOK[0](st, 'before', c, line)
     pre_heap = dict(st.heap)
     pre_alloc = st.alloc
-    # 3. frame
+    # 3. frame: what the callee may modify must lie inside the caller's own frame
     targets = eval_modifies(st, c, env)
-    havoc(st, targets)
+    check_callee_frame(st, c, targets, line)
+    # 'fresh' in a callee's frame = objects the callee allocates itself: nothing of the caller's to havoc
+    havoc(st, [t for t in targets if t[0] != 'fresh'])
     st.bump_alloc()
     if c.yields and YIELD_HOOK[0] is not None:
         YIELD_HOOK[0](st, 'after', c, line)
@@ -860,6 +900,12 @@ def bi_same(st, args, kw):
     return E.mk_bool(a.z == b.z)
 
 
+def bi_allocated(st, args, kw):
+    """allocated(x): x is an object that exists now (0 < ref < allocation counter)"""
+    v = args[0]
+    return E.mk_bool(z3.And(v.z > 0, v.z < st.alloc))
+
+
 def bi_mkseq(st, args, kw):
     a, n = args
     return Val(T.TSeq(a.t.args[1]), SeqV(a.z, n.z))
@@ -917,7 +963,7 @@ def bi_dict(st, args, kw):
 
 
 _BUILTINS = {
-    'mkseq': bi_mkseq, 'trig': bi_trig, 'same': bi_same, 'is_list': bi_is_list, 'store': bi_store, 'dict_has': bi_dict_has,
+    'mkseq': bi_mkseq, 'allocated': bi_allocated, 'trig': bi_trig, 'same': bi_same, 'is_list': bi_is_list, 'store': bi_store, 'dict_has': bi_dict_has,
     'dict_get': bi_dict_get, 'dict_keys': bi_dict_keys, 'dict': bi_dict, 'dict_index': bi_dict_index,
     'len': bi_len, 'set': bi_set, 'list': bi_list, 'tuple': bi_tuple, 'min': bi_min, 'max': bi_max,
     'seq': bi_seq, 'setv': bi_setv, 'set_of': bi_set_of, 'sorted_by': bi_sorted_by,
@@ -926,7 +972,7 @@ _BUILTINS = {
     'int': bi_int, 'sorted': bi_sorted, 'range': bi_range, 'enumerate': bi_enumerate,
     'zip': bi_zip, 'reversed': bi_reversed, 'bytearray': bi_bytearray,
     'memoryview': bi_memoryview, 'bytes': bi_bytes,
-    'map': bi_unsupported('map'), 'repeat': bi_unsupported('repeat'),
+    'map': bi_unsupported('map'), 'repeat': lambda st, args, kw: Val(T.Ty('repeat'), args[0]),
 }
 
 
